@@ -100,6 +100,23 @@ def rule_progress(rep):
                 "default_error_recovery returns True without storing the token found as head.token_ahead",
                 node=n.ast,
             )
+            multi = any("_next_tokens" in unparse(x.ast) for x in fetch)
+            for m in store:
+                v = m.ast.value
+                if multi:
+                    okv = (
+                        isinstance(v, ast.IfExp) and re.fullmatch(r"len\((\w+)\) == 1", unparse(v.test)) is not None
+                        and re.fullmatch(r"\w+\[0\]", unparse(v.body)) is not None and unparse(v.orelse) == "None"
+                    )
+                    r.check(
+                        okv,
+                        "the lookahead is stored only when it is unique (else left to the parser)",
+                        "default_error_recovery:unique-lookahead",
+                        f"default_error_recovery scans with _next_tokens and stores `{unparse(v)[:60]}`: with lexical "
+                        "ambiguity at the resume position one alternative is dropped silently (GLR) or the stale "
+                        "lookahead is kept",
+                        node=m.ast,
+                    )
             tok_test = g.test_edges(lambda e: isinstance(e, ast.Name) and e.id in ("token", "tok", "tokens"), "T")
             r.check(
                 bool(tok_test) and g.dominated_by_edges(n, tok_test),
@@ -377,7 +394,8 @@ def check(rep):
     rule_span_end(rep)
     rule_gated(rep)
     rule_token_length(rep)
-    from .C10 import rule_errors_are_syntax_errors
+    from .C10 import rule_discipline, rule_errors_are_syntax_errors
 
     # recovery works on the heads snapshotted for this frontier and on the errors built from them
     rule_errors_are_syntax_errors(rep)
+    rule_discipline(rep)  # nothing but the last SyntaxError leaves parse(), from recovery code included
